@@ -167,6 +167,34 @@ theorem C11_filter_sem (db : Db) (s : Sel) (c : Expr) (h1 : s.clause.usesOth = f
 theorem C11_filter_holds (s : Sel) (c : Expr) (e : Env) :
     holds (s.filter (some c)).clause e = (holds s.clause e && holds c e) := holds_and _ _ _
 
+/-- **n-ary `OR(c1, …, cn)`** (any n ≥ 1, operands arbitrary, nesting allowed): its truth value is the
+    three-valued disjunction of the operands' values, so it is TRUE for exactly the rows for which some
+    operand is TRUE. -/
+theorem C11_nary_or_sem (l : List Expr) (x : Expr) (h : nary .or l = some x) (e : Env) :
+    x.eval e = or3L (l.map (Expr.eval e)) ∧ (holds x e = true ↔ ∃ c ∈ l, holds c e = true) := by
+  have he := nary_or_eval e l x h
+  refine ⟨he, ?_⟩
+  simp only [holds, beq_iff_eq, he, or3L_true, List.mem_map]
+  constructor
+  · rintro ⟨_, ⟨c, hc, rfl⟩, hv⟩; exact ⟨c, hc, hv⟩
+  · rintro ⟨c, hc, hv⟩; exact ⟨_, ⟨c, hc, rfl⟩, hv⟩
+
+/-- **n-ary `AND(c1, …, cn)`**: TRUE for exactly the rows for which every operand is TRUE -/
+theorem C11_nary_and_sem (l : List Expr) (x : Expr) (h : nary .and l = some x) (e : Env) :
+    x.eval e = and3L (l.map (Expr.eval e)) ∧ (holds x e = true ↔ ∀ c ∈ l, holds c e = true) := by
+  have he := nary_and_eval e l x h
+  refine ⟨he, ?_⟩
+  simp only [holds, beq_iff_eq, he, and3L_true, List.mem_map]
+  constructor
+  · intro hv c hc; exact hv _ ⟨c, hc, rfl⟩
+  · rintro hv _ ⟨c, hc, rfl⟩; exact hv c hc
+
+/-- the helpers give an expression for every non-empty operand list (and Python None for none) -/
+theorem C11_nary_defined (f : BoolOp) (l : List Expr) : (nary f l).isSome = true ↔ l ≠ [] := by
+  constructor
+  · intro h e; subst e; simp [nary] at h
+  · exact nary_isSome f l
+
 /-! ## count and aggregates -/
 
 /-- **aggregate_plan (count).**  `count()` of a select is the length of the list the select returns
@@ -214,7 +242,13 @@ theorem C11_min_max_spec (l : List Int) :
     ∧ (∀ m, maxL l = some m → m ∈ l ∧ ∀ x ∈ l, x ≤ m) :=
   ⟨fun h => ⟨(minL_spec l).1 h, (maxL_spec l).1 h⟩, (minL_spec l).2, (maxL_spec l).2⟩
 
-/-! ## getOne and the unique lookups -/
+/-! ## iteration, getOne and the unique lookups -/
+
+/-- iterating a select hands out an object for EVERY fetched row, whatever its id (0, negative, …):
+    only a NULL id column — which a row of the table never has — yields None -/
+theorem C11_iteration_delivers_every_row (rows : List Row) : iterSelect rows = rows.map some := by
+  simp [iterSelect, deliver, Extracted.iterNullGuard]
+
 
 /-- **getOne_012.** -/
 theorem C11_getOne_012 {α} (d : Bool) (l : List α) :
@@ -314,6 +348,11 @@ example : evalAgg exSch exDb (aggPlan exJoin .sum (.const ['b', '_', 'v'])) = so
 example : evalAgg exSch exDb (aggPlan (Sel.new exSch (some (.isNull (.col (.col 0)))) none false false) .max (.field (.col 0)))
     = some (.int none) := by decide
 example : evalAgg exSch exDb (aggPlan (Sel.new exSch none none false false) .avg (.field (.col 2))) = some (.ratio (some (5, 3))) := by decide
+example : (nary .or [.cmp .eq (.col (.col 0)) (.lit 1), .isNull (.col (.col 0)), .cmp .eq (.col (.col 1)) (.lit 7)]).map
+    (fun c => (source exDb c).map (·.id)) = some [1, 2, 3, 4] := by decide
+example : (nary .and [.cmp .eq (.col (.col 0)) (.lit 1), .isNull (.col (.col 1)), .cmp .eq (.col (.col 2)) (.lit 2)]).map
+    (fun c => (source exDb c).map (·.id)) = some [3, 4] := by decide
+example : iterSelect [⟨0, [none]⟩, ⟨-1, []⟩] = [some ⟨0, [none]⟩, some ⟨-1, []⟩] := by decide
 example : getOne false ([] : List Int) = .notFound ∧ getOne true ([] : List Int) = .default
     ∧ getOne false [7] = .value 7 ∧ getOne false [7, 8, 9] = .integrity := by decide
 example : fetchAlternateID exDb (.col 1) (some 5) = .notFound ∧ fetchAlternateID exDb (.col 2) (some 1) = .value 1 := by decide
